@@ -260,11 +260,13 @@ func ZZ_C10_auth_assertion() {
 	// the assertion's exp lies a symbolic number of seconds before or after now (the second itself is left open)
 	expOff := zz.Int("expoff", -3600, 3600)
 	zz.Assume(expOff != 0)
+	// ... and its audience is an arbitrary string (the token endpoint URL, "", a near miss)
+	aud := zz.String("aud", 26)
 	switch kind {
 	case 0: // well-formed assertion of the target client, signed with c3's registered key
 		form.Set("client_assertion_type", clientAssertionJWTBearerType)
 		form.Set("client_assertion", zzjwt.Sign(zzjwt.Spec{Alg: "RS256", Kid: "k1", Key: priv, Claims: map[string]interface{}{
-			"iss": target, "sub": target, "aud": "https://as.example/token", "jti": "jti-1",
+			"iss": target, "sub": target, "aud": aud, "jti": "jti-1",
 			"exp": time.Now().Unix() + expOff,
 		}}))
 	case 1: // type without assertion
@@ -300,6 +302,7 @@ func ZZ_C10_auth_assertion() {
 	}
 	zz.Assert(kind == 0, "only a well-formed assertion authenticates when client_assertion_type is present")
 	zz.Assert(expOff > 0, "only an unexpired assertion authenticates")
+	zz.Assert(aud == "https://as.example/token", "only an assertion addressed to this server's token endpoint authenticates")
 	zz.Assert(c == Client(w.c3) && target == "c3", "an assertion authenticates only the OpenID Connect client it names")
 	zz.Assert(w.method == "private_key_jwt", "an assertion authenticates only a client registered for private_key_jwt")
 	zz.Cover("assertion:private_key_jwt-accepted", true)
